@@ -9,7 +9,9 @@ definition ABSENT from the output, so the proofs that need it stop compiling):
   * GTC/json_format.py JSON_SCHEMA  ->  json_schema_id : string  (value of "version");
   * GTC/persistence.py loads_json: the regular expression of the version sniff
     (pattern = r'"version": "{}"'.format(re.sub(r'\\.', r'\\.', JSON_SCHEMA)); re.search(pattern, s))
-    -> sniff_pat : pat.
+    -> sniff_pat : pat;
+  * GTC/xml_format.py _NCNAME (the namespace-prefix test of archive_to_xml, [start][char]*\\Z over code points)
+    -> xml_prefix_start, xml_prefix_char : list (N * N).
 Annotations without validation force are dropped ($schema, $id, description, errorMessage) and
 so is "dependencies", which is not a keyword of draft 2020-12 (the dialect the schema declares
 and the test-suite validates with): jsonschema's Draft202012Validator ignores it too."""
@@ -272,6 +274,65 @@ def eval_pattern(e, ident):
         return re.escape(eval_pattern(e.args[0], ident))
     raise Untranslatable('pattern expression %s' % ast.unparse(e))
 
+# ------------------------------------------------------------------ the XML namespace-prefix test
+def const_eval(e, env):
+    """strings built at module level from literals, names, +, % and tuples"""
+    if isinstance(e, ast.Constant) and isinstance(e.value, str): return e.value
+    if isinstance(e, ast.Name) and e.id in env: return env[e.id]
+    if isinstance(e, ast.Tuple): return tuple(const_eval(x, env) for x in e.elts)
+    if isinstance(e, ast.BinOp) and isinstance(e.op, ast.Add): return const_eval(e.left, env) + const_eval(e.right, env)
+    if isinstance(e, ast.BinOp) and isinstance(e.op, ast.Mod): return const_eval(e.left, env) % const_eval(e.right, env)
+    raise Untranslatable('constant expression %s' % ast.unparse(e))
+
+def cp_class(body):
+    """the ranges of a character class body over code points (escapes: \\- \\. \\\\ only)"""
+    cps = []; i = 0
+    while i < len(body):
+        ch = body[i]
+        if ch == '\\':
+            if i + 1 >= len(body) or body[i + 1] not in '-.\\]': raise Untranslatable('escape in prefix class')
+            cps.append((ord(body[i + 1]), True)); i += 2
+        elif ch in '[]^': raise Untranslatable('unsupported class syntax')
+        else:
+            cps.append((ord(ch), ch != '-')); i += 1
+    ranges = []; i = 0
+    while i < len(cps):
+        c, lit = cps[i]
+        if not lit: raise Untranslatable('dangling - in class')
+        if i + 2 < len(cps) and cps[i + 1] == (ord('-'), False):
+            hi = cps[i + 2][0]
+            if hi < c: raise Untranslatable('bad range')
+            ranges.append((c, hi)); i += 3
+        else:
+            ranges.append((c, c)); i += 1
+    return ranges
+
+def gen_prefix(repo):
+    tree = ast.parse(open(os.path.join(repo, 'GTC', 'xml_format.py')).read())
+    env = {}; pattern = None
+    for node in tree.body:
+        if isinstance(node, ast.Assign) and len(node.targets) == 1 and isinstance(node.targets[0], ast.Name):
+            v = node.value
+            if isinstance(v, ast.Call) and ast.unparse(v.func) == 're.compile' and len(v.args) == 1 and not v.keywords:
+                if node.targets[0].id == '_NCNAME': pattern = const_eval(v.args[0], env)
+            else:
+                try: env[node.targets[0].id] = const_eval(v, env)
+                except Untranslatable: pass
+    if pattern is None: raise Untranslatable('xml_format._NCNAME = re.compile(...) not found')
+    fn = [n for n in tree.body if isinstance(n, ast.FunctionDef) and n.name == 'archive_to_xml']
+    guarded = False
+    for node in ast.walk(fn[0]) if fn else []:
+        if isinstance(node, ast.If) and ast.unparse(node.test) == 'not _NCNAME.match(prefix)' \
+           and isinstance(node.body[0], ast.Raise) and 'ValueError' in ast.unparse(node.body[0]):
+            guarded = True
+    if not guarded: raise Untranslatable('archive_to_xml: "if not _NCNAME.match(prefix): raise ValueError" not recognised')
+    m = re.fullmatch(r'\[((?:[^\]\\]|\\.)+)\]\[((?:[^\]\\]|\\.)+)\]\*\\Z', pattern, re.S)
+    if not m: raise Untranslatable('prefix pattern is not [start][char]*\\Z')
+    rl = lambda rs: clist('(%d%%N, %d%%N)' % r for r in rs)
+    return ['(* code-point ranges of the namespace-prefix test of xml_format.archive_to_xml: [start][char]*\\Z *)\n'
+            'Definition xml_prefix_start : list (N * N) :=\n  %s.\nDefinition xml_prefix_char : list (N * N) :=\n  %s.\n'
+            % (rl(cp_class(m.group(1))), rl(cp_class(m.group(2))))], {'prefix_ranges': [len(cp_class(m.group(1))), len(cp_class(m.group(2)))]}
+
 HEADER = '''(* GENERATED by tools/tr_schema.py from GTC/schema/gtc_v_1_5_0.json, GTC/json_format.py and
    GTC/persistence.py -- do not edit; regenerated on every check run. *)
 From Coq Require Import List String ZArith NArith.
@@ -283,7 +344,7 @@ Local Open Scope string_scope.
 
 def main(repo, outdir):
     parts = []; status = {}
-    for name, f in (('schema', gen_schema), ('sniff', gen_sniff)):
+    for name, f in (('schema', gen_schema), ('sniff', gen_sniff), ('prefix', gen_prefix)):
         try:
             out, info = f(repo)
             parts += out; status[name] = info
